@@ -3,6 +3,7 @@
 package connectconformance
 
 import (
+	"os"
 	"testing"
 
 	"connectrpc.com/conformance/internal/verifsim/simwork"
@@ -12,5 +13,10 @@ var verifScenarios = map[string]simwork.RunFunc{}
 
 // TestVerif is the worker entry point used by /verif/vcheck.
 func TestVerif(t *testing.T) {
+	defer func() {
+		if worldDir != "" {
+			_ = os.RemoveAll(worldDir) // scratch config/suite files of the world scenarios
+		}
+	}()
 	simwork.Main(t, verifScenarios)
 }
